@@ -119,12 +119,21 @@ class ScriptAgent(Agent):
             w.apply_op(self.model, op)
 
 
+class Memo(Event):
+    """application-defined event classes: an event is whatever IS-A Event / DelayedEvent"""
+
+
+class Shipment(DelayedEvent):
+    pass
+
+
 def send(model, w, s, sender_id):
     data = {"uid": s["uid"]}
+    sub = s["uid"] % 3 == 0          # every third event is an instance of an application-defined subclass
     if s.get("delay") is None:
-        ev = Event(s.get("name", "ping"), sender_id, s["to"], data=data)
+        ev = (Memo if sub else Event)(s.get("name", "ping"), sender_id, s["to"], data=data)
     else:
-        ev = DelayedEvent(s.get("name", "ping"), sender_id, s["to"], s["delay"], data=data)
+        ev = (Shipment if sub else DelayedEvent)(s.get("name", "ping"), sender_id, s["to"], s["delay"], data=data)
     model.enqueue_event(ev)
     w.sent.append((w.k, s["uid"], s["to"], s.get("delay")))
 
@@ -137,6 +146,18 @@ class TeamAgent(ScriptAgent):
         super().initialize()
         for _ in range(self.MEMBERS):
             self.model.create_agent("a", None)
+
+
+class CapAgent(ScriptAgent):
+    """a capped population: a newcomer replaces the oldest member of its type once there are CAP of them
+    (a deletion nested inside a creation)"""
+    CAP = 2
+
+    def initialize(self):
+        super().initialize()
+        ids = list(self.model.agent_ids("cap"))
+        if len(ids) >= self.CAP:
+            self.model.delete_agent(ids[0])
 
 
 class LoggingCollector(DataCollector):
@@ -166,6 +187,7 @@ class ScriptModel(Model):
         for t in self.TYPES:
             self.register_agent_factory(t, (lambda tt: (lambda agent_id, model, properties: ScriptAgent(agent_id, model, properties, tt)))(t))
         self.register_agent_factory("team", lambda agent_id, model, properties: TeamAgent(agent_id, model, properties, "team"))
+        self.register_agent_factory("cap", lambda agent_id, model, properties: CapAgent(agent_id, model, properties, "cap"))
         if isinstance(self.data_collector, LoggingCollector):
             self.data_collector.world = self.world
 
